@@ -616,6 +616,19 @@ func TestVerif_WireTable(t *testing.T) {
 			tr.reset(kv{"kind": "wire", "table": "enum", "from": i})
 		}
 		r := checkWireCase(c)
+		if r.fxDec == "" || r.fxDec == "n/a" {
+			// the filexfer STREAM reader accepts the same bytes: frame length, type byte, id, and nothing lost
+			r.fxDec = catch(func() string {
+				var raw sshfx.RawPacket
+				if err := raw.ReadFrom(bytes.NewReader(bs(c.Bytes)), nil, maxMsgLength); err != nil {
+					return "stream reader: " + err.Error()
+				}
+				if int(raw.PacketType) != c.P.T || 9+raw.Data.Len() != len(c.Bytes) {
+					return "stream reader: type or length differ"
+				}
+				return r.fxDec
+			})
+		}
 		tr.emit("WireCase", kv{"i": i, "t": c.P.T, "typ": typName(byte(c.P.T)), "pkgenc": r.pkgEnc, "pkgdec": r.pkgDec, "fxenc": r.fxEnc, "fxdec": r.fxDec, "len": len(c.Bytes)})
 	}
 }
